@@ -407,10 +407,10 @@ def main(argv) -> int:
                 chk.merge(job.result())
             except Exception as err:
                 chk.harness_error(f"worker failed: {err!r}")
-    chk.require_min("json_roundtrips", chk.pick(300, 10000))
-    chk.require_min("xml_roundtrips", chk.pick(100, 3000))
-    chk.require_min("json_mutations", chk.pick(2000, 100000))
-    chk.require_min("xml_mutations", chk.pick(1000, 30000))
+    chk.require_min("json_roundtrips", chk.pick(300, 2000))
+    chk.require_min("xml_roundtrips", chk.pick(100, 600))
+    chk.require_min("json_mutations", chk.pick(2000, 20000))
+    chk.require_min("xml_mutations", chk.pick(1000, 8000))
     chk.assume("XML round trip judged only for instances whose strings consist of XML 1.0 characters")
     chk.assume("floats compare with == (nan equals nan); the sign of zero is not judged")
     return chk.finish()
